@@ -112,7 +112,7 @@ Proof.
   - apply andb_true_iff in Hc. destruct Hc as [Hlt Hva]. apply Nat.ltb_lt in Hlt.
     assert (E : Nat.ltb (length A) (n + m) = true) by (apply Nat.ltb_lt; lia).
     rewrite E, Hva. reflexivity.
-  - unfold apply_params at 1. cbn [flatten posargs pokargs varargs kwoargs varkwargs ssrc sdep].
+  - unfold apply_params at 1. unfold flatten. cbn [posargs pokargs varargs kwoargs varkwargs ssrc sdep].
     assert (Efl : skipn n PO_ ++ skipn (n - length PO_) PK_ ++ opt_list (varargs so) ++ kwoargs so
                   ++ opt_list (varkwargs so) = skipn n A ++ rest_of so).
     { unfold A, rest_of. rewrite skipn_app, <- !app_assoc. reflexivity. }
@@ -133,7 +133,7 @@ Proof.
     assert (Econd : Nat.ltb (length (skipn n A)) m && negb (isSome (varargs so))
                     = Nat.ltb (length A) (n + m) && negb (isSome (varargs so))).
     { destruct (isSome (varargs so)) eqn:Eva; cbn [negb]; [rewrite !andb_false_r; reflexivity|].
-      rewrite !andb_true_r in *. cbn [negb] in Hc. rewrite andb_true_r in Hc. apply Nat.ltb_ge in Hc.
+      rewrite !andb_true_r. cbn [negb] in Hc. rewrite andb_true_r in Hc. apply Nat.ltb_ge in Hc.
       rewrite skipn_length.
       destruct (Nat.ltb_spec (length A - n) m), (Nat.ltb_spec (length A) (n + m)); try reflexivity; lia. }
     rewrite Econd.
@@ -142,3 +142,496 @@ Proof.
     replace (n - length PO_ + (m - (length PO_ - n)))%nat with (n + m - length PO_)%nat by lia.
     unfold apply_params. cbn [ret uret r]. reflexivity.
 Qed.
+
+(* ------------------------------------------------------------------ *)
+(* closed form of the loop over the named arguments (mask mode)         *)
+
+Fixpoint takew {A} (f : A -> bool) (l : list A) : list A :=
+  match l with [] => [] | x :: l' => if f x then x :: takew f l' else [] end.
+Fixpoint dropw {A} (f : A -> bool) (l : list A) : list A :=
+  match l with [] => [] | x :: l' => if f x then dropw f l' else l end.
+
+Lemma takew_app {A} (f : A -> bool) a b :
+  takew f (a ++ b) = if forallb f a then a ++ takew f b else takew f a.
+Proof.
+  induction a as [|x a IH]; cbn [app takew forallb]; [reflexivity|].
+  destruct (f x); cbn [andb]; [|reflexivity]. rewrite IH. destruct (forallb f a); reflexivity.
+Qed.
+
+Lemma dropw_app {A} (f : A -> bool) a b :
+  dropw f (a ++ b) = if forallb f a then dropw f b else dropw f a ++ b.
+Proof.
+  induction a as [|x a IH]; cbn [app dropw forallb]; [reflexivity|].
+  destruct (f x); cbn [andb]; [|reflexivity]. exact IH.
+Qed.
+
+Lemma takew_all {A} (f : A -> bool) a : forallb f a = true -> takew f a = a.
+Proof.
+  induction a as [|x a IH]; cbn [takew forallb]; [reflexivity|]. intros H.
+  apply andb_true_iff in H. destruct H as [H1 H2]. rewrite H1, (IH H2). reflexivity.
+Qed.
+
+Lemma dropw_all {A} (f : A -> bool) a : forallb f a = true -> dropw f a = [].
+Proof.
+  induction a as [|x a IH]; cbn [dropw forallb]; [reflexivity|]. intros H.
+  apply andb_true_iff in H. destruct H as [H1 H2]. rewrite H1. exact (IH H2).
+Qed.
+
+Lemma takew_ext_in {A} (f g : A -> bool) l : (forall x, In x l -> f x = g x) -> takew f l = takew g l.
+Proof.
+  induction l as [|x l IH]; intros H; cbn [takew]; [reflexivity|].
+  rewrite <- (H x (or_introl eq_refl)). rewrite IH; [reflexivity|]. intros y Hy. apply H. right. exact Hy.
+Qed.
+
+Lemma dropw_ext_in {A} (f g : A -> bool) l : (forall x, In x l -> f x = g x) -> dropw f l = dropw g l.
+Proof.
+  induction l as [|x l IH]; intros H; cbn [dropw]; [reflexivity|].
+  rewrite <- (H x (or_introl eq_refl)). rewrite IH; [reflexivity|]. intros y Hy. apply H. right. exact Hy.
+Qed.
+
+Lemma dropw_incl {A} (f : A -> bool) l x : In x (dropw f l) -> In x l.
+Proof.
+  induction l as [|y l IH]; cbn [dropw]; [auto|]. destruct (f y); [intros H; right; exact (IH H)|auto].
+Qed.
+
+Lemma filter_perm {A} (f : A -> bool) l l' : Permutation l l' -> Permutation (filter f l) (filter f l').
+Proof.
+  induction 1 as [|x l l' _ IH|x y l|l l' l'' _ IH1 _ IH2]; cbn [filter].
+  - constructor.
+  - destruct (f x); [constructor; exact IH|exact IH].
+  - destruct (f x), (f y); try apply Permutation_refl. apply perm_swap.
+  - eapply perm_trans; eassumption.
+Qed.
+
+(* not hit by one of the names *)
+Definition nh (ns : list name) (q : param) : bool := negb (mem (pname q) ns).
+
+Lemma nh_cons_ne x ns q : pname q <> x -> nh (x :: ns) q = nh ns q.
+Proof. intros H. unfold nh. cbn [mem]. destruct (N.eqb_spec (pname q) x); [contradiction|reflexivity]. Qed.
+
+Lemma nh_cons_eq x ns q : pname q = x -> nh (x :: ns) q = false.
+Proof. intros H. unfold nh. cbn [mem]. rewrite H, N.eqb_refl. reflexivity. Qed.
+
+Lemma nh_nil_forallb l : forallb (nh []) l = true.
+Proof. induction l; cbn; auto. Qed.
+
+Lemma nh_set_kind k ns q : nh ns (set_kind k q) = nh ns q.
+Proof. reflexivity. Qed.
+
+Lemma filter_nh_nil l : filter (nh []) l = l.
+Proof. induction l as [|q l IH]; cbn; [reflexivity|]. f_equal. exact IH. Qed.
+
+Lemma filter_nh_remove x ns l : filter (nh ns) (remove_param x l) = filter (nh (x :: ns)) l.
+Proof.
+  induction l as [|q l IH]; cbn [remove_param filter]; [reflexivity|].
+  destruct (N.eqb_spec x (pname q)) as [E|Hne].
+  - rewrite (nh_cons_eq x ns q (eq_sym E)). exact IH.
+  - rewrite (nh_cons_ne x ns q) by (intros E; apply Hne; symmetry; exact E).
+    cbn [filter]. rewrite IH. reflexivity.
+Qed.
+
+Lemma in_names_remove x y l :
+  In y (names_of (remove_param x l)) <-> (In y (names_of l) /\ y <> x).
+Proof.
+  induction l as [|q l IH]; cbn [remove_param names_of map In]; [tauto|].
+  destruct (N.eqb_spec x (pname q)) as [E|Hne].
+  - fold (names_of l) in *. rewrite IH. split; [tauto|]. intros [[H|H] Hy]; [exfalso; apply Hy; congruence|tauto].
+  - cbn [names_of map In]. fold (names_of (remove_param x l)) (names_of l) in *. rewrite IH.
+    split; [intros [H|H]; [split; [left; exact H|congruence]|tauto]|tauto].
+Qed.
+
+(* the three Ok cases and the two Err cases of one step *)
+Lemma mask_name_none_cases hv st x v :
+  match mask_name None hv st (x, v) with
+  | Ok st' =>
+      ~ In x (k_consumed st) /\ k_consumed st' = x :: k_consumed st /\
+      ((exists before p after,
+          k_pok st = before ++ p :: after /\ pname p = x /\ ~ In x (names_of before) /\
+          k_pok st' = before /\ k_va st' = None /\
+          k_kwo st' = od_update (k_kwo st) (map (set_kind KO) after))
+       \/ (~ In x (names_of (k_pok st)) /\ In x (names_of (k_kwo st)) /\
+           k_pok st' = k_pok st /\ k_va st' = k_va st /\ k_kwo st' = remove_param x (k_kwo st))
+       \/ (~ In x (names_of (k_pok st)) /\ ~ In x (names_of (k_kwo st)) /\ hv = true /\
+           k_pok st' = k_pok st /\ k_va st' = k_va st /\ k_kwo st' = k_kwo st))
+  | Err e =>
+      e = ValueErr /\
+      (In x (k_consumed st) \/
+       (hv = false /\ ~ In x (names_of (k_pok st)) /\ ~ In x (names_of (k_kwo st))))
+  end.
+Proof.
+  unfold mask_name. cbn [fst snd].
+  destruct (mem x (k_consumed st)) eqn:E.
+  { apply mem_In in E. split; [reflexivity|left; exact E]. }
+  apply mem_false_In in E.
+  pose proof (split_at_name_spec x (k_pok st)) as Sp.
+  destruct (split_at_name x (k_pok st)) as [[[a p] b]|].
+  - destruct Sp as (E1 & E2 & E3). split; [exact E|]. split; [reflexivity|]. left.
+    exists a, p, b. cbn [k_pok k_va k_kwo]. repeat split; auto.
+  - pose proof (find_param_split x (k_kwo st)) as F.
+    destruct (find_param x (k_kwo st)) as [p|].
+    + destruct F as (l1 & l2 & E1 & E2 & E3). split; [exact E|]. split; [reflexivity|]. right. left.
+      cbn [k_pok k_va k_kwo]. repeat split; auto. rewrite E1, names_of_app. apply in_or_app. right.
+      left. exact E2.
+    + destruct hv; cbn [negb].
+      * split; [exact E|]. split; [reflexivity|]. right. right. cbn [k_pok k_va k_kwo]. repeat split; auto.
+      * split; [reflexivity|]. right. repeat split; auto.
+Qed.
+
+Lemma od_update_after pos1 vk st before p after :
+  KInv pos1 vk st -> k_pok st = before ++ p :: after ->
+  od_update (k_kwo st) (map (set_kind KO) after) = k_kwo st ++ map (set_kind KO) after /\
+  ~ In (pname p) (names_of before) /\ ~ In (pname p) (names_of after) /\ ~ In (pname p) (names_of (k_kwo st)).
+Proof.
+  intros (HK & Hn & Hd) Ep. unfold kps, blk in Hn. rewrite Ep in Hn.
+  assert (Hak : NoDup (names_of after ++ names_of (k_kwo st))).
+  { eapply nodup_count; [exact Hn|]. intros y. count_names. destruct (N.eq_dec (pname p) y); lia. }
+  split; [|split; [|split]].
+  - apply od_update_fresh.
+    + rewrite names_of_set_kind. apply nodup_app_l in Hak. exact Hak.
+    + rewrite names_of_set_kind. intros y Hy Hy'. exact (nodup_app_disjoint _ _ y Hak Hy Hy').
+  - intros X. apply (count_occ_In N.eq_dec) in X.
+    pose proof (proj1 (NoDup_count_occ N.eq_dec _) Hn (pname p)) as Hc1. count_names.
+    revert Hc1. destruct (N.eq_dec (pname p) (pname p)) as [_|Hne]; [intros; lia|contradiction].
+  - intros X. apply (count_occ_In N.eq_dec) in X.
+    pose proof (proj1 (NoDup_count_occ N.eq_dec _) Hn (pname p)) as Hc1. count_names.
+    revert Hc1. destruct (N.eq_dec (pname p) (pname p)) as [_|Hne]; [intros; lia|contradiction].
+  - intros X. apply (count_occ_In N.eq_dec) in X.
+    pose proof (proj1 (NoDup_count_occ N.eq_dec _) Hn (pname p)) as Hc1. count_names.
+    revert Hc1. destruct (N.eq_dec (pname p) (pname p)) as [_|Hne]; [intros; lia|contradiction].
+Qed.
+
+Definition kwo_form (ns : list name) (pok kwo : list param) : list param :=
+  filter (nh ns) (kwo ++ map (set_kind KO) (dropw (nh ns) pok)).
+
+Definition va_form (ns : list name) (pok : list param) (va : option param) : option param :=
+  if forallb (nh ns) pok then va else None.
+
+Lemma in_names (q : param) l : In q l -> In (pname q) (names_of l).
+Proof. intros H. unfold names_of. apply in_map. exact H. Qed.
+
+Lemma filter_nh_ext x ns l : ~ In x (names_of l) -> filter (nh (x :: ns)) l = filter (nh ns) l.
+Proof.
+  intros H. apply filter_ext_in. intros q Hq. apply nh_cons_ne. intros E. apply H. rewrite <- E.
+  apply in_names. exact Hq.
+Qed.
+
+Lemma step_shape pos1 vk st st' x ns :
+  KInv pos1 vk st ->
+  ((exists before p after,
+      k_pok st = before ++ p :: after /\ pname p = x /\ ~ In x (names_of before) /\
+      k_pok st' = before /\ k_va st' = None /\
+      k_kwo st' = od_update (k_kwo st) (map (set_kind KO) after))
+   \/ (~ In x (names_of (k_pok st)) /\ In x (names_of (k_kwo st)) /\
+       k_pok st' = k_pok st /\ k_va st' = k_va st /\ k_kwo st' = remove_param x (k_kwo st))
+   \/ (~ In x (names_of (k_pok st)) /\ ~ In x (names_of (k_kwo st)) /\
+       k_pok st' = k_pok st /\ k_va st' = k_va st /\ k_kwo st' = k_kwo st)) ->
+  takew (nh ns) (k_pok st') = takew (nh (x :: ns)) (k_pok st) /\
+  va_form ns (k_pok st') (k_va st') = va_form (x :: ns) (k_pok st) (k_va st) /\
+  Permutation (kwo_form ns (k_pok st') (k_kwo st')) (kwo_form (x :: ns) (k_pok st) (k_kwo st)) /\
+  (forall y, y <> x -> (In y (names_of (k_pok st') ++ names_of (k_kwo st'))
+                        <-> In y (names_of (k_pok st) ++ names_of (k_kwo st)))).
+Proof.
+  intros Hinv [A|[B|C]].
+  - destruct A as (before & p & after & Ep & Hp & Hxb & E1 & E2 & E3).
+    destruct (od_update_after pos1 vk st before p after Hinv Ep) as (Eu & _ & Hxa & Hxk).
+    rewrite Hp in Hxa, Hxk. rewrite E1, E2, E3, Eu, Ep. clear E1 E2 E3 Eu.
+    assert (Hb : forall q, In q before -> nh (x :: ns) q = nh ns q).
+    { intros q Hq. apply nh_cons_ne. intros E. apply Hxb. rewrite <- E. apply in_names. exact Hq. }
+    assert (Hgp : nh (x :: ns) p = false) by (apply nh_cons_eq; exact Hp).
+    assert (Efb : forallb (nh (x :: ns)) before = forallb (nh ns) before) by (apply forallb_ext_in; exact Hb).
+    split; [|split; [|split]].
+    + rewrite takew_app, Efb. cbn [takew]. rewrite Hgp, app_nil_r.
+      rewrite (takew_ext_in _ _ before Hb).
+      destruct (forallb (nh ns) before) eqn:Ef; [apply takew_all; exact Ef|reflexivity].
+    + unfold va_form. rewrite forallb_app. cbn [forallb]. rewrite Hgp, andb_false_r.
+      destruct (forallb (nh ns) before); reflexivity.
+    + unfold kwo_form.
+      assert (Edw : dropw (nh (x :: ns)) (before ++ p :: after) = dropw (nh ns) before ++ p :: after).
+      { rewrite dropw_app, Efb. cbn [dropw]. rewrite Hgp. rewrite (dropw_ext_in _ _ before Hb).
+        destruct (forallb (nh ns) before) eqn:Ef; [rewrite (dropw_all _ _ Ef); reflexivity|reflexivity]. }
+      rewrite Edw. set (dw := dropw (nh ns) before).
+      assert (Hdw : ~ In x (names_of (map (set_kind KO) dw))).
+      { rewrite names_of_set_kind. intros X. apply Hxb. unfold names_of in *. apply in_map_iff in X.
+        destruct X as [q [Eq Hq]]. apply in_map_iff. exists q. split; [exact Eq|]. exact (dropw_incl _ _ _ Hq). }
+      rewrite map_app. cbn [map]. rewrite !filter_app. cbn [filter].
+      rewrite nh_set_kind, Hgp.
+      rewrite (filter_nh_ext x ns (k_kwo st) Hxk), (filter_nh_ext x ns _ Hdw).
+      rewrite (filter_nh_ext x ns (map (set_kind KO) after)) by (rewrite names_of_set_kind; exact Hxa).
+      rewrite <- !app_assoc. apply Permutation_app_head. apply Permutation_app_comm.
+    + intros y Hy. rewrite !names_of_app, names_of_set_kind. cbn [names_of map]. fold (names_of after).
+      rewrite !in_app_iff. cbn [In]. rewrite Hp. split; [tauto|]. intros [[H|[H|H]]|H]; try tauto.
+      exfalso. apply Hy. symmetry. exact H.
+  - destruct B as (Hxp & Hxk & E1 & E2 & E3). rewrite E1, E2, E3. clear E1 E2 E3.
+    assert (Hb : forall q, In q (k_pok st) -> nh (x :: ns) q = nh ns q).
+    { intros q Hq. apply nh_cons_ne. intros E. apply Hxp. rewrite <- E. apply in_names. exact Hq. }
+    split; [|split; [|split]].
+    + symmetry. apply takew_ext_in. exact Hb.
+    + unfold va_form. rewrite (forallb_ext_in _ _ _ Hb). reflexivity.
+    + unfold kwo_form. rewrite (dropw_ext_in _ _ _ Hb). set (dw := dropw (nh ns) (k_pok st)).
+      assert (Hdw : ~ In x (names_of (map (set_kind KO) dw))).
+      { rewrite names_of_set_kind. intros X. apply Hxp. unfold names_of in *. apply in_map_iff in X.
+        destruct X as [q [Eq Hq]]. apply in_map_iff. exists q. split; [exact Eq|]. exact (dropw_incl _ _ _ Hq). }
+      rewrite !filter_app, filter_nh_remove, (filter_nh_ext x ns _ Hdw). apply Permutation_refl.
+    + intros y Hy. rewrite !in_app_iff, in_names_remove. tauto.
+  - destruct C as (Hxp & Hxk & E1 & E2 & E3). rewrite E1, E2, E3. clear E1 E2 E3.
+    assert (Hb : forall q, In q (k_pok st) -> nh (x :: ns) q = nh ns q).
+    { intros q Hq. apply nh_cons_ne. intros E. apply Hxp. rewrite <- E. apply in_names. exact Hq. }
+    split; [|split; [|split]].
+    + symmetry. apply takew_ext_in. exact Hb.
+    + unfold va_form. rewrite (forallb_ext_in _ _ _ Hb). reflexivity.
+    + unfold kwo_form. rewrite (dropw_ext_in _ _ _ Hb). set (dw := dropw (nh ns) (k_pok st)).
+      assert (Hdw : ~ In x (names_of (map (set_kind KO) dw))).
+      { rewrite names_of_set_kind. intros X. apply Hxp. unfold names_of in *. apply in_map_iff in X.
+        destruct X as [q [Eq Hq]]. apply in_map_iff. exists q. split; [exact Eq|]. exact (dropw_incl _ _ _ Hq). }
+      rewrite !filter_app, (filter_nh_ext x ns _ Hxk), (filter_nh_ext x ns _ Hdw). apply Permutation_refl.
+    + intros y Hy. tauto.
+Qed.
+
+Definition ok_names (hv : bool) (st : kstate) (ns : list name) : Prop :=
+  NoDup ns /\ (forall x, In x ns -> ~ In x (k_consumed st)) /\
+  (hv = false -> forall x, In x ns -> In x (names_of (k_pok st) ++ names_of (k_kwo st))).
+
+(* C03 shape: what the loop leaves, as a function of the SET of names *)
+Lemma mask_names_closed hv pos1 vk : forall ns st, KInv pos1 vk st -> hv = isSome vk ->
+  match mask_names None hv st (map (fun x => (x, 0)) ns) with
+  | Ok stf =>
+      k_pok stf = takew (nh ns) (k_pok st) /\
+      k_va stf = va_form ns (k_pok st) (k_va st) /\
+      Permutation (k_kwo stf) (kwo_form ns (k_pok st) (k_kwo st)) /\
+      KInv pos1 vk stf /\ ok_names hv st ns
+  | Err e => e = ValueErr /\ ~ ok_names hv st ns
+  end.
+Proof.
+  induction ns as [|x ns IH]; intros st Hinv Hhv.
+  - cbn [map mask_names]. unfold va_form, kwo_form.
+    rewrite (takew_all _ _ (nh_nil_forallb _)), nh_nil_forallb, (dropw_all _ _ (nh_nil_forallb _)).
+    cbn [map]. rewrite app_nil_r, filter_nh_nil.
+    split; [reflexivity|]. split; [reflexivity|]. split; [apply Permutation_refl|]. split; [exact Hinv|].
+    split; [constructor|split; [intros x []|intros _ x []]].
+  - cbn [map mask_names].
+    pose proof (mask_name_none_cases hv st x 0) as Hc.
+    destruct (mask_name None hv st (x, 0)) as [st'|e] eqn:Est; cbn [bind].
+    + destruct Hc as (Hxc & Hcons & Hcases).
+      pose proof (mask_name_step None hv pos1 vk st x 0 Hinv Hhv Hxc (fun H => False_ind _ (H eq_refl))) as Hs.
+      rewrite Est in Hs. destruct Hs as (Hinv' & _).
+      assert (Hcases' :
+        (exists before p after,
+            k_pok st = before ++ p :: after /\ pname p = x /\ ~ In x (names_of before) /\
+            k_pok st' = before /\ k_va st' = None /\
+            k_kwo st' = od_update (k_kwo st) (map (set_kind KO) after))
+        \/ (~ In x (names_of (k_pok st)) /\ In x (names_of (k_kwo st)) /\
+            k_pok st' = k_pok st /\ k_va st' = k_va st /\ k_kwo st' = remove_param x (k_kwo st))
+        \/ (~ In x (names_of (k_pok st)) /\ ~ In x (names_of (k_kwo st)) /\
+            k_pok st' = k_pok st /\ k_va st' = k_va st /\ k_kwo st' = k_kwo st)).
+      { destruct Hcases as [A|[B|C]]; [left; exact A|right; left; exact B|right; right; tauto]. }
+      destruct (step_shape pos1 vk st st' x ns Hinv Hcases') as (S1 & S2 & S3 & S4).
+      assert (Hxin : hv = false -> In x (names_of (k_pok st) ++ names_of (k_kwo st))).
+      { intros Hf. destruct Hcases as [A|[B|C]].
+        - destruct A as (before & p & after & Ep & Hp & _). apply in_or_app. left.
+          rewrite Ep, names_of_app. apply in_or_app. right. left. exact Hp.
+        - apply in_or_app. right. tauto.
+        - destruct C as (_ & _ & Ht & _). rewrite Ht in Hf. discriminate. }
+      specialize (IH st' Hinv' Hhv).
+      destruct (mask_names None hv st' (map (fun x => (x, 0)) ns)) as [stf|e].
+      * destruct IH as (I1 & I2 & I3 & I4 & (O1 & O2 & O3)).
+        split; [rewrite I1; exact S1|]. split; [rewrite I2; exact S2|].
+        split; [eapply perm_trans; [exact I3|exact S3]|]. split; [exact I4|].
+        split; [|split].
+        -- constructor; [|exact O1]. intros Hin. apply (O2 x Hin). rewrite Hcons. left; reflexivity.
+        -- intros y [<-|Hy]; [exact Hxc|]. intros X. apply (O2 y Hy). rewrite Hcons. right. exact X.
+        -- intros Hf y [<-|Hy]; [exact (Hxin Hf)|]. apply (S4 y).
+           ++ intros E. subst y. apply (O2 x Hy). rewrite Hcons. left. reflexivity.
+           ++ exact (O3 Hf y Hy).
+      * destruct IH as (-> & Hno). split; [reflexivity|]. intros (O1 & O2 & O3). apply Hno.
+        apply NoDup_cons_iff in O1. destruct O1 as [Hxn O1]. split; [exact O1|split].
+        -- intros y Hy. rewrite Hcons. intros [E|X]; [subst y; contradiction|]. exact (O2 y (or_intror Hy) X).
+        -- intros Hf y Hy. apply (S4 y).
+           ++ intros E. subst y. contradiction.
+           ++ exact (O3 Hf y (or_intror Hy)).
+    + destruct Hc as (-> & [Hin|(Hf & H1 & H2)]); (split; [reflexivity|]); intros (O1 & O2 & O3).
+      * exact (O2 x (or_introl eq_refl) Hin).
+      * specialize (O3 Hf x (or_introl eq_refl)). apply in_app_or in O3. tauto.
+Qed.
+
+Lemma mem_perm x l l' : Permutation l l' -> mem x l = mem x l'.
+Proof.
+  intros H. apply eq_true_iff_eq. rewrite !mem_In.
+  split; apply Permutation_in; [exact H|symmetry; exact H].
+Qed.
+
+Lemma nh_perm ns ns' q : Permutation ns ns' -> nh ns q = nh ns' q.
+Proof. intros H. unfold nh. rewrite (mem_perm _ _ _ H). reflexivity. Qed.
+
+Lemma ok_names_perm hv st ns ns' : Permutation ns ns' -> ok_names hv st ns -> ok_names hv st ns'.
+Proof.
+  intros H (O1 & O2 & O3). assert (H' : Permutation ns' ns) by (symmetry; exact H). split; [|split].
+  - eapply Permutation_NoDup; eassumption.
+  - intros x Hx. apply O2. eapply Permutation_in; eassumption.
+  - intros Hf x Hx. apply (O3 Hf). eapply Permutation_in; eassumption.
+Qed.
+
+(* equal up to the order of the keyword-only parameters: the other parameters
+   are the same list, the keyword-only ones the same multiset (both lists being
+   valid, the keyword-only parameters sit in one block in each) *)
+Definition same_up_to_kwo_order (a b : list param) : Prop :=
+  filter (fun p => negb (is_kind KO p)) a = filter (fun p => negb (is_kind KO p)) b /\
+  Permutation (kwonly a) (kwonly b).
+
+Definition perm_rel (x y : res sigT) : Prop :=
+  match x, y with
+  | Ok r, Ok r' => same_up_to_kwo_order (params r) (params r')
+  | Err e, Err e' => e = e'
+  | _, _ => False
+  end.
+
+Lemma perm_rel_refl x : perm_rel x x.
+Proof. destruct x as [r|e]; cbn; [split; [reflexivity|apply Permutation_refl]|reflexivity]. Qed.
+
+Lemma blk_nonko pos pok va kwo vk :
+  kinds5 pos pok va kwo vk ->
+  filter (fun p => negb (is_kind KO p)) (blk pos pok va kwo vk) = pos ++ pok ++ opt_list va ++ opt_list vk.
+Proof.
+  intros (H1 & H2 & H3 & H4 & H5). unfold blk. rewrite !filter_app.
+  set (f := fun p => negb (is_kind KO p)).
+  rewrite (filter_all f pos), (filter_all f pok), (filter_all f (opt_list va)), (filter_none f kwo),
+          (filter_all f (opt_list vk)).
+  - reflexivity.
+  - apply Forall_opt. intros v Hv. unfold f, is_kind. rewrite (H5 v Hv). reflexivity.
+  - eapply Forall_kind_f; [|exact H4]. intros p Hp. unfold f, is_kind. rewrite Hp. reflexivity.
+  - apply Forall_opt. intros v Hv. unfold f, is_kind. rewrite (H3 v Hv). reflexivity.
+  - eapply Forall_kind_f; [|exact H2]. intros p Hp. unfold f, is_kind. rewrite Hp. reflexivity.
+  - eapply Forall_kind_f; [|exact H1]. intros p Hp. unfold f, is_kind. rewrite Hp. reflexivity.
+Qed.
+
+Lemma KInv_vk3 pos1 vk st vk3 : KInv pos1 vk st -> (vk3 = vk \/ vk3 = None) -> KInv pos1 vk3 st.
+Proof.
+  intros Hinv [->| ->]; [exact Hinv|]. destruct Hinv as ((H1 & H2 & H3 & H4 & H5) & Hn & Hd).
+  split; [|split; [|exact Hd]].
+  - repeat split; auto. discriminate.
+  - eapply nodup_count; [exact Hn|]. intros y. count_names. lia.
+Qed.
+
+Lemma perm_core s pos1 vk hv st0 vk3 (F : kstate -> srcmap) dep ns ns' :
+  KInv pos1 vk st0 -> hv = isSome vk -> (vk3 = vk \/ vk3 = None) -> Permutation ns ns' ->
+  perm_rel
+    (do st <- mask_names None hv st0 (map (fun x => (x, 0)) ns) ;;
+     apply_params s (mkSorted pos1 (k_pok st) (k_va st) (k_kwo st) vk3 (F st) dep))
+    (do st <- mask_names None hv st0 (map (fun x => (x, 0)) ns') ;;
+     apply_params s (mkSorted pos1 (k_pok st) (k_va st) (k_kwo st) vk3 (F st) dep)).
+Proof.
+  intros Hinv Hhv Hvk3 Hp.
+  pose proof (mask_names_closed hv pos1 vk ns st0 Hinv Hhv) as C1.
+  pose proof (mask_names_closed hv pos1 vk ns' st0 Hinv Hhv) as C2.
+  destruct (mask_names None hv st0 (map (fun x => (x, 0)) ns)) as [a|e1];
+    destruct (mask_names None hv st0 (map (fun x => (x, 0)) ns')) as [b|e2]; cbn [bind].
+  - destruct C1 as (I1 & I2 & I3 & I4 & I5). destruct C2 as (J1 & J2 & J3 & J4 & J5).
+    pose proof (KInv_vk3 _ _ _ vk3 I4 Hvk3) as Ia. pose proof (KInv_vk3 _ _ _ vk3 J4 Hvk3) as Ib.
+    unfold apply_params.
+    change (flatten (mkSorted pos1 (k_pok a) (k_va a) (k_kwo a) vk3 (F a) dep)) with (kps pos1 vk3 a).
+    change (flatten (mkSorted pos1 (k_pok b) (k_va b) (k_kwo b) vk3 (F b) dep)) with (kps pos1 vk3 b).
+    rewrite (KInv_validate _ _ _ Ia), (KInv_validate _ _ _ Ib). cbn [perm_rel params].
+    assert (Enh : forall q, nh ns q = nh ns' q) by (intros q; apply nh_perm; exact Hp).
+    assert (Epok : k_pok a = k_pok b).
+    { rewrite I1, J1. apply takew_ext_in. intros q _. apply Enh. }
+    assert (Eva : k_va a = k_va b).
+    { rewrite I2, J2. unfold va_form. rewrite (forallb_ext _ _ (k_pok st0) Enh). reflexivity. }
+    assert (Ekwo : kwo_form ns (k_pok st0) (k_kwo st0) = kwo_form ns' (k_pok st0) (k_kwo st0)).
+    { unfold kwo_form. rewrite (dropw_ext_in _ _ (k_pok st0) (fun q _ => Enh q)).
+      apply filter_ext. exact Enh. }
+    destruct Ia as (Ka & _). destruct Ib as (Kb & _). unfold kps. split.
+    + rewrite (blk_nonko _ _ _ _ _ Ka), (blk_nonko _ _ _ _ _ Kb), Epok, Eva. reflexivity.
+    + rewrite (blk_kwonly _ _ _ _ _ Ka), (blk_kwonly _ _ _ _ _ Kb).
+      eapply perm_trans; [exact I3|]. rewrite Ekwo. symmetry. exact J3.
+  - destruct C1 as (_ & _ & _ & _ & I5). destruct C2 as (_ & Hno). exfalso. apply Hno.
+    exact (ok_names_perm _ _ _ _ Hp I5).
+  - destruct C2 as (_ & _ & _ & _ & J5). destruct C1 as (_ & Hno). exfalso. apply Hno.
+    apply (ok_names_perm _ _ ns' ns); [symmetry; exact Hp|exact J5].
+  - destruct C1 as (-> & _). destruct C2 as (-> & _). reflexivity.
+Qed.
+
+Lemma KInv_drop_va pos1 vk pok va kwo src cons src' cons' :
+  KInv pos1 vk (mkK pok va kwo src cons) -> KInv pos1 vk (mkK pok None kwo src' cons').
+Proof.
+  intros ((H1 & H2 & H3 & H4 & H5) & Hn & Hd). cbn [k_pok k_va k_kwo] in *. split; [|split; [|exact Hd]].
+  - cbn [k_pok k_va k_kwo]. repeat split; auto. discriminate.
+  - eapply nodup_count; [exact Hn|]. intros y. count_names. lia.
+Qed.
+
+Lemma KInv_n s n va1 src cons :
+  valid_sig (params s) = true ->
+  (va1 = varargs (sort_params s) \/ va1 = None) ->
+  KInv (skipn n (posargs (sort_params s))) (varkwargs (sort_params s))
+       (mkK (skipn (n - length (posargs (sort_params s))) (pokargs (sort_params s))) va1
+            (kwoargs (sort_params s)) src cons).
+Proof.
+  intros Hv [->| ->].
+  - exact (st0_inv s n Hv).
+  - exact (KInv_drop_va _ _ _ _ _ _ _ src cons (st0_inv s n Hv)).
+Qed.
+
+Lemma KInv_hide_args s src cons :
+  valid_sig (params s) = true ->
+  KInv [] (varkwargs (sort_params s)) (mkK [] None (kwoargs (sort_params s)) src cons).
+Proof.
+  intros Hv. pose proof (st0_inv s 0 Hv) as ((H1 & H2 & H3 & H4 & H5) & Hn & Hd).
+  unfold st0_of in *. cbn [k_pok k_va k_kwo Nat.sub skipn] in *. split; [|split; [|exact I]].
+  - cbn [k_pok k_va k_kwo]. repeat split; auto. discriminate.
+  - eapply nodup_count; [exact Hn|]. intros y. count_names. lia.
+Qed.
+
+(* C03_perm, for ALL signatures, ALL n, ALL sixteen hide-flag sets: permuting
+   the named arguments gives the same parameters up to the order of the
+   keyword-only ones, or the same error *)
+Theorem mask_perm s n names names' h :
+  valid_sig (params s) = true -> Permutation names names' ->
+  perm_rel (mask s n names h) (mask s n names' h).
+Proof.
+  intros Hv Hp. unfold mask, mask_gen. destruct h as [ha hk hva hvk].
+  cbn [h_args h_kwargs h_varargs h_varkwargs].
+  destruct hk.
+  - apply perm_rel_refl.
+  - destruct ha.
+    + cbn [bind orb].
+      destruct hvk; cbn [orb];
+        (apply (perm_core s _ (varkwargs (sort_params s)));
+         [apply KInv_hide_args; exact Hv|reflexivity|auto|exact Hp]).
+    + cbn [orb].
+      destruct (Nat.eqb n 0).
+      * cbn [bind].
+        destruct hva, hvk; cbn [orb];
+          (apply (perm_core s _ (varkwargs (sort_params s)));
+           [apply (KInv_n s 0); auto|reflexivity|auto|exact Hp]).
+      * match goal with |- context [Nat.ltb ?a n && ?b] => destruct (Nat.ltb a n && b) end; [reflexivity|].
+        cbn [bind].
+        destruct hva, hvk; cbn [orb];
+          (apply (perm_core s _ (varkwargs (sort_params s)));
+           [apply (KInv_n s n); auto|reflexivity|auto|exact Hp]).
+Qed.
+
+(* the relation is not vacuous: an explicit instance where the order of the
+   keyword-only parameters really differs *)
+Definition ex_sig4 : sigT :=
+  mkSig [mkParam 1 PK None None UEmpty; mkParam 2 PK None None UEmpty;
+         mkParam 3 PK None None UEmpty; mkParam 4 PK None None UEmpty] None UEmpty [] [].
+
+Definition res_names (x : res sigT) : option (list (name * kind)) :=
+  match x with Ok r => Some (map (fun p => (pname p, pkind p)) (params r)) | Err _ => None end.
+
+Example mask_perm_order_differs :
+  valid_sig (params ex_sig4) = true /\
+  res_names (mask ex_sig4 0 [1; 3] nohide0) = Some [(2, KO); (4, KO)] /\
+  res_names (mask ex_sig4 0 [3; 1] nohide0) = Some [(4, KO); (2, KO)].
+Proof. repeat split; vm_compute; reflexivity. Qed.
+
+Example mask_compose_nonvacuous :
+  let s := mkSig [mkParam 1 PO None None UEmpty; mkParam 2 PK (Some 1) None UEmpty;
+                  mkParam 9 VP None None UEmpty; mkParam 3 KO None None UEmpty] None UEmpty
+                 [(1, [100]); (2, [100]); (9, [100]); (3, [100])] [(100, 0)] in
+  valid_sig (params s) = true /\ exists r, mask s 1 [] nohide0 = Ok r /\ mask r 2 [] nohide0 = mask s 3 [] nohide0.
+Proof. split; [reflexivity|]. eexists. split; reflexivity. Qed.
+
+Print Assumptions mask_compose.
+Print Assumptions mask_names_closed.
+Print Assumptions mask_perm.
+Print Assumptions mask_perm_order_differs.
+Print Assumptions mask_compose_nonvacuous.
